@@ -69,6 +69,8 @@ pub fn run_enumerated(ctx: &mut Ctx, i: u64) -> Verdict {
         password: crate::rsim::SSH_PASSWORD.to_string(),
         big_request: 0,
         slow_peer: false,
+        ssh_setup: Default::default(),
+        abandon_close: false,
     };
     ev!(ctx, "scenario {}/{}", kind.name(), sc.label);
     let o = run_scenario(ctx, &sc);
